@@ -120,6 +120,14 @@ func c03Build(members []string, sep, placement string) (tpl string, want []strin
 				taken = true
 				want = append(want, id, id)
 			}
+		case "EIL0": // ... and one whose loop has no iterations: it takes the chain and renders nothing
+			if !inChain || sawElse || afterFor {
+				defined = false
+			}
+			attr = ` v-else-if="t" v-for="q in none"`
+			if inChain && !taken {
+				taken = true
+			}
 		}
 		if placement == "tmpl" || placement == "inctmpl" {
 			parts = append(parts, fmt.Sprintf(`<template%s><i id="%s">%s</i></template>`, attr, id, id))
@@ -281,6 +289,23 @@ func c03Observe(ctx *core.Ctx, consumer, reach string, tv truthVal) (truthy bool
 			return false, err, out
 		}
 		return c03Judge(consumer, out)
+	case "goname":
+		// the value is a field of struct root data, reached by its Go name (its JSON tag is another name)
+		x = "X"
+		ctx.Eval(1)
+		out, err = renderString(c03TruthTpl(consumer, x), c03RootGo{X: tv.V, T1: true})
+		if err != nil {
+			return false, err, out
+		}
+		return c03Judge(consumer, out)
+	case "nowhere", "pastend":
+		// the value is missing because the path leads nowhere: two steps below an undefined key, past the end of a list
+		x = "o.x.y"
+		if reach == "pastend" {
+			x = "xs[5]"
+		}
+		data["o"] = map[string]any{}
+		data["xs"] = []any{1}
 	case "ptrfield":
 		// the value is a nil *struct FIELD of struct root data
 		x = "x"
@@ -318,6 +343,12 @@ type c03Emb struct {
 type c03RootEmb struct {
 	c03Emb
 	Own string `json:"own"`
+}
+
+type c03RootGo struct {
+	X  any  `json:"val"`
+	F0 bool `json:"f0"`
+	T1 bool `json:"t1"`
 }
 
 type c03RootPtr struct {
@@ -466,6 +497,11 @@ func (c *c03Case) Run(ctx *core.Ctx) {
 				// these paths are spellings of the stack's path syntax, not of the expression language
 				continue
 			}
+			if cons == "tern" && (c.Reach == "nowhere" || c.Reach == "pastend") {
+				// the expression library refuses to look into nothing inside a larger expression: the
+				// render fails, loudly - only the path and its negation have a meaning of their own
+				continue
+			}
 			t, err, out := c03Observe(ctx, cons, c.Reach, tv)
 			if err != nil {
 				ctx.Violation("truth-error", cons, tv.Kind, fmt.Sprintf("%s %s via %s: %v (out %q)", c.Val, cons, c.Reach, err, out))
@@ -503,7 +539,7 @@ func init() {
 		ID:    "C03",
 		Level: "exploration",
 		Rule: "chain part: every sibling list up to the bound over {plain, v-if(T/F), v-else-if(T/F), v-else, v-for over an empty / one-element list, v-else / v-else-if members that are themselves loops} x separators {none, whitespace, comment, both} x placements {top, div, v-for x2, <template> members, nested in a taken branch, deep, as the whole of a component file with element members / with <template> members}; oracle: reference chain evaluator gives the ordered marker list. " +
-			"truth part: 46 Go values x 8 ways of reaching them (variable, nested key, loop item, struct field by JSON tag, dotted index, hyphenated key, slot content evaluated a second time after a value of the opposite truthiness, a loop variable that shadows an outer variable of the opposite truthiness; a nil pointer also as a field of struct root data, own and promoted from an embedded struct) x 12 consumers (v-if, v-else-if, !x, v-show, :attr, :class object, !!x, x && true, !x && true, x || false, x ? : in a binding, :attr with !x, v-show next to a static style and on v-if / v-else members); oracles: documented table and agreement between consumers. non-trivial = chain of >=2 members with defined semantics, or any truth case",
+			"truth part: 46 Go values x 9 ways of reaching them (variable, nested key, loop item, struct field by JSON tag, field of struct root data by its Go name where the tag is another name, a missing value also as a path that leads nowhere - two steps below an undefined key, past the end of a list -, dotted index, hyphenated key, slot content evaluated a second time after a value of the opposite truthiness, a loop variable that shadows an outer variable of the opposite truthiness; a nil pointer also as a field of struct root data, own and promoted from an embedded struct) x 12 consumers (v-if, v-else-if, !x, v-show, :attr, :class object, !!x, x && true, !x && true, x || false, x ? : in a binding, :attr with !x, v-show next to a static style and on v-if / v-else members); oracles: documented table and agreement between consumers. non-trivial = chain of >=2 members with defined semantics, or any truth case",
 		Bounds:      map[string]string{"quick": "sibling lists of length <= 5", "thorough": "sibling lists of length <= 6"},
 		Assumptions: []string{"what an orphan v-else/v-else-if renders, and members after a v-else, are unconstrained (only plain siblings are checked there)", "NaN and the string \"false\" are checked for uniformity only"},
 		Decode:      core.DecodeAs[c03Case](),
@@ -515,8 +551,12 @@ func init() {
 					emit(&c03Case{Part: "truth", Val: tv.Name, Reach: "promotedptr"})
 					emit(&c03Case{Part: "truth", Val: tv.Name, Reach: "promotednested"})
 				}
-				for _, r := range []string{"var", "nested", "item", "tagfield", "dotindex", "hyphen", "slotrow", "shadow"} {
-					if (r == "item" || r == "tagfield" || r == "dotindex" || r == "hyphen" || r == "slotrow" || r == "shadow") && tv.Name == "missing" {
+				if tv.Name == "missing" {
+					emit(&c03Case{Part: "truth", Val: tv.Name, Reach: "nowhere"})
+					emit(&c03Case{Part: "truth", Val: tv.Name, Reach: "pastend"})
+				}
+				for _, r := range []string{"var", "nested", "item", "tagfield", "dotindex", "hyphen", "slotrow", "shadow", "goname"} {
+					if (r == "goname" || r == "item" || r == "tagfield" || r == "dotindex" || r == "hyphen" || r == "slotrow" || r == "shadow") && tv.Name == "missing" {
 						continue
 					}
 					emit(&c03Case{Part: "truth", Val: tv.Name, Reach: r})
@@ -536,7 +576,7 @@ func init() {
 					}
 				}
 			}
-			opts := []string{"P", "I+", "I-", "EI+", "EI-", "E", "F-", "F+", "EL", "EIL"}
+			opts := []string{"P", "I+", "I-", "EI+", "EI-", "E", "F-", "F+", "EL", "EIL", "EIL0"}
 			max := 5
 			if tier == "thorough" {
 				max = 6
